@@ -364,10 +364,19 @@ type sim struct {
 	// builder ended with nothing outstanding although the store is incomplete.
 	resumedPartial bool
 	stuck          bool
+	raw            bool // profile rawfaults: builder directly on B, transient write errors injected
+	failedWrites   int
+	failedPending  map[string]bool // requests whose last delivery was hit by an injected write error
 }
 
 func (s *sim) startBuilder() {
-	s.builder = merkle.NewBuilder(s.B)
+	if s.raw {
+		// the builder writes straight into the local store (as sync2 does in its no-buffer mode and the
+		// data syncers do): a failing write is visible to it
+		s.builder = merkle.NewBuilderWithRawDatabase(s.B)
+	} else {
+		s.builder = merkle.NewBuilder(s.B)
+	}
 	wss, err := state.NewWorldSnapshotWithBuilder(s.builder, s.src.stateHash, s.src.vlHash, nil, nil)
 	must(err)
 	s.wss = wss
@@ -433,10 +442,56 @@ func (s *sim) deliver(kind string, bid db.BucketID, value []byte) {
 			s.touch(ref{b, h})
 		}
 	}
+	inj0 := s.B.injected
+	if s.raw && want != nil && rc.Tape.Permille("write.fail", 120) {
+		s.B.failAt = 1 + rc.Tape.Choose("write.fail.at", len(want.bids))
+	}
 	err := s.builder.OnData(bid, value)
+	s.B.failAt = 0
 	rc.Steps++
 	rc.Event("deliver %s bk=%q h=%s len=%d -> %v", kind, string(bid), short(h), len(value), err)
+	if want != nil && s.B.injected > inj0 {
+		// An injected write error hit this delivery. Narrow relaxation: the delivery may fail and may have
+		// stored the value for some of its buckets only; but it must report the failure, and the request
+		// must stay outstanding (it can be delivered again) - otherwise "nothing outstanding" would no
+		// longer mean "complete". Everything else is judged as usual by check().
+		rc.Fault("write_error")
+		s.failedWrites++
+		if err == nil {
+			rc.Violate("write-error-swallowed", kind, "a write of OnData(%q, hash %x) failed but OnData reported success", string(bid), h)
+			return
+		}
+		still := false
+		for _, p := range s.pending() {
+			if p.key == h {
+				still = true
+			}
+		}
+		for _, b := range want.bids {
+			r := ref{b, h}
+			if s.B.get(b, h) != nil {
+				if _, ok := s.accepted[r]; !ok {
+					s.acceptedOrder = append(s.acceptedOrder, r)
+				}
+				s.accepted[r] = string(value)
+			}
+		}
+		if !still {
+			rc.Violate("failed-delivery-dropped-request", kind, "OnData(%q, hash %x) failed with %v (injected write error) and the request is no longer outstanding: it can never be delivered again", string(bid), h, err)
+			return
+		}
+		rc.Probe("failed_delivery_kept_request")
+		if s.failedPending == nil {
+			s.failedPending = map[string]bool{}
+		}
+		s.failedPending[h] = true
+		s.check(kind + "/write-error")
+		return
+	}
 	if want != nil {
+		if err == nil {
+			delete(s.failedPending, h)
+		}
 		if err != nil {
 			rc.Violate("requested-data-refused", kind, "OnData(%q, %d bytes, hash %x) is pending but was refused: %v", string(bid), len(value), h, err)
 			return
@@ -556,6 +611,18 @@ func (s *sim) check(where string) {
 		return
 	}
 	if len(ps) > 0 && missing == 0 {
+		onlyFailed := len(s.failedPending) > 0
+		for _, p := range ps {
+			if !s.failedPending[p.key] {
+				onlyFailed = false
+			}
+		}
+		if onlyFailed {
+			// a delivery that failed half-way (injected write error) stored the value for one requester and
+			// still owes it to another: the request is rightly outstanding although no node is missing
+			rc.Probe("complete_but_failed_delivery_outstanding")
+			return
+		}
 		sig := "complete-but-outstanding"
 		if s.restarts > 0 {
 			sig += "-after-restart"
@@ -588,6 +655,7 @@ func runLayer1(rc *kit.RunCtx) {
 	rc.Config["source_db_entries"] = len(s.src.db.content())
 	rc.Event("source accounts=%d validators=%d extra=%d objs=%d reachable=%d state=%x", len(s.src.accs), len(s.src.vals), len(s.src.extra), len(s.src.objs), len(s.ref.order), s.src.stateHash)
 
+	s.raw = rc.Profile == "rawfaults"
 	s.B = newJDB()
 	s.startBuilder()
 	s.check("start")
